@@ -20,7 +20,7 @@ EXPLANATION = (
     'close_links closes every member. Thread interleavings are covered by the join-dominates-inspection argument.')
 ASSUMPTIONS = ['Thread.join() without timeout returns only after the thread function finished',
                'list.append is atomic under the GIL (Reporter._errors)']
-FLOORS = {'R1': 6, 'R2': 6, 'R3': 2, 'R4': 4, 'R5': 6}
+FLOORS = {'R1': 6, 'R2': 6, 'R3': 2, 'R4': 5, 'R5': 7}
 
 
 def loop_unconditional(g, loop_node, node):
@@ -256,6 +256,16 @@ def check(ctx):
     eff_ = effective(ol.node.body)
     ok = bool(eff_) and isinstance(eff_[0], ast.If) and norm(eff_[0].test) == 'self._is_open' and \
         all(isinstance(s, ast.Raise) for s in effective(eff_[0].body)[-1:])
+    swi = m.func(SW, 'Swarm.__init__')
+    loops_ = [l for l in walk_own(swi.node) if isinstance(l, ast.For)]
+    ctx.inst('R4', swi, 'members-in-given-order', len(loops_) == 1 and norm(loops_[0].iter) == swi.params[1] and
+             any(isinstance(s_, ast.Assign) and norm(s_.targets[0]) == 'self._cfs[%s]' % norm(loops_[0].target) for s_ in walk_own(loops_[0])),
+             'the member table is filled by iterating the given URIs as given (sequential actions run in that order); loop over %s' % [norm(l.iter) for l in loops_])
+    sdc = m.func('cflib/crazyflie/syncCrazyflie.py', 'SyncCrazyflie._disconnected')
+    gd_ = cfg_of(sdc)
+    clr = [n for n in gd_.nodes if n.kind == 'stmt' and isinstance(n.ast, ast.Assign) and norm(n.ast.targets[0]) == 'self._is_link_open' and norm(n.ast.value) == 'False']
+    ctx.inst('R5', sdc, 'link-loss-always-clears-open-flag', len(clr) == 1 and not gd_.fact_keys_at(clr[0]) and ('n', clr[0].id) in (gd_.dom().get(('n', gd_.exit.id)) or ()),
+             'a lost link clears _is_link_open on every path (also while open_link is still waiting): open_link must then report the failure and the swarm closes every link')
     ctx.inst('R5', ol, 'refuse-second-open', ok, 'open_links must start with `if self._is_open: raise`')
     sets = [n for n in go.nodes if n.kind == 'stmt' and isinstance(n.ast, ast.Assign) and norm(n.ast.targets[0]) == 'self._is_open'
             and isinstance(n.ast.value, ast.Constant) and n.ast.value.value is True]
